@@ -30,17 +30,30 @@ ASSUMPTIONS = [
     "a resolver that was reset() (pmerge --ignore-failures: drop the failed target, reset(), resolve the rest again) is an input like a fresh "
     "one: the policy and the comparison with a fresh resolver apply to what it resolves afterwards",
     "repositories are homogeneous in repo.livefs and list each version once; versions accepted by isvalid_version_re",
+    "when the resolver under test cannot resolve the pinned first candidate, 'resolvable' may instead be witnessed independently of its "
+    "search: the dependency-ordered plan that takes the first candidate of the policy order for every dependency the plan does not satisfy "
+    "yet (build-time and run-time classes before the package, PDEPEND after it), accepted only if nothing at all goes wrong on the way (no "
+    "blocker on any package involved, every clause a single atom or already satisfied, no candidate in a key+slot that is being worked on "
+    "or already planned with another package) and C15's planOk accepts the resulting plan; a first-candidate-first search walks exactly "
+    "this path",
+    "a lookup through a resolver's strategy objects (all_dbs, livefs_dbs) answers for the atom asked — USE dependencies, ::repo pins, slot "
+    "operators and blocker spellings included — whatever was looked up through them before",
 ]
 RULE = ("repositories of C15's generators with two source repositories (overlapping versions => ties) and one installed repository; for every "
         "target/dependency atom the real prefer_highest_version_strategy / prefer_reuse_strategy streams are compared with the Lean model and "
-        "checked against the policy with the real comparisons; SEQUENCES of 2-3 targets are resolved on one long-lived resolver (one add_atom "
+        "checked against the policy with the real comparisons — as a HISTORY of lookups on the one strategy object of a resolver: around the plain "
+        "atoms, before and after them and repeated, other spellings selecting among the same packages (USE dependencies on packages with "
+        "random IUSE/USE, blockers with USE dependencies, ::repo pins, slot operators), each answer (all_dbs stream and livefs_dbs view) compared "
+        "with what the raw repositories hold for that very atom; SEQUENCES of 2-3 targets are resolved on one long-lived resolver (one add_atom "
         "each, as pmerge does), a quarter of them on repositories with build-time dependency cycles escaped through any-of alternatives and "
         "multi-version later targets, a quarter on 'late-reject' repositories (highest versions given up after part of their dependencies was "
         "planned, with the dependency a later target; installed packages weakly blocked by the highest versions of several targets), an eighth "
-        "on C15's 'family' repositories; half of the sequences are driven like pmerge --ignore-failures (failed target dropped, reset(), the rest "
-        "resolved again on the same resolver), a third starts with a target nothing provides; for every target of every (last-episode) sequence "
+        "on C15's 'family' repositories, 40 more on C15's 'bootstrap' repositories (a new slot of a package needing its own old slot); half of the sequences are driven like pmerge --ignore-failures (failed target dropped, reset(), the rest "
+        "resolved again on the same resolver), a third starts with a target nothing provides, a fifth with another spelling (USE dependency, ::repo pin) of a later target's "
+        "package that may or may not resolve; for every target of every (last-episode) sequence "
         "the first candidate of its stream is pinned on a fresh resolver on top of the packages the earlier targets got (oracle, independent of "
-        "the live resolver's history; plan accepted by C15's planOk) and, when that works, must be what the target gets — also when the live plan "
+        "the live resolver's history; plan accepted by C15's planOk; when the resolver cannot pin it, an independent dependency-ordered "
+        "first-candidate plan without any conflict, accepted by planOk, counts as well) and, when that works, must be what the target gets — also when the live plan "
         "satisfied the target beforehand with a package those choices do not bring in; after each sequence the resolver's insoluble memory is "
         "checked against the repositories; every sequence is repeated on a fresh resolver in-process and in a child interpreter with another hash "
         "seed; non-trivial = stream with >= 3 candidates or a tie, or a target whose first candidate is "
@@ -64,6 +77,41 @@ def split_src(rng, case):
     vitems = list(case["vdb"].items())
     rng.shuffle(vitems)
     return s1, s2, dict(vitems)
+
+
+USE_FLAGS = ["gtk", "ssl"]
+
+
+def decorate_use(rng, case):
+    """give half of the packages IUSE/USE (installed twins may differ from their source version, as rebuilt packages do); only atoms with
+    USE dependencies look at them"""
+    out = {"src": {}, "vdb": {}}
+    for where in ("src", "vdb"):
+        for cpv, meta in case[where].items():
+            meta = dict(meta)
+            if rng.random() < 0.6:
+                iuse = [f for f in USE_FLAGS if rng.random() < 0.7]
+                meta["iuse"] = " ".join(iuse)
+                meta["use"] = " ".join(f for f in iuse if rng.random() < 0.5)
+            out[where][cpv] = meta
+    return dict(case, **out)
+
+
+def lookup_history(rng, plain, names):
+    """a history of lookups for ONE long-lived strategy object: the plain atoms, and — around them, before and after, repeated —
+    other spellings that select among the same packages: USE dependencies, blockers with USE dependencies, ::repo pins, slot
+    operators; every lookup must answer for its own atom whatever was asked before"""
+    hist = list(plain)
+    for n in rng.sample(names, min(len(names), rng.randint(1, 2))):
+        v = rng.choice(c15.VERSIONS)
+        f, g = rng.sample(USE_FLAGS, 2)
+        pool = [f"{n}[{f}]", f"{n}[-{f}]", f"!{n}[-{f}]", f"!!{n}[{g}]", f"{n}[{f},{g}]", f"{n}[{f},-{g}]", f"{n}:0[{f}]", f">={n}-{v}[{g}]",
+                f"{n}::src1", f"{n}::src2", f"{n}::vdb", f"!{n}", f"{n}:=", f"{n}:*", f"{n}:0=", f"<{n}-{v}::src2", n, n]
+        for t in rng.sample(pool, rng.randint(2, 4)):
+            hist.insert(rng.randrange(len(hist) + 1), t)
+    for _ in range(rng.randint(0, 2)):
+        hist.insert(rng.randrange(len(hist) + 1), rng.choice(hist))      # asked again later
+    return hist
 
 
 def build(case3, mode):
@@ -241,7 +289,104 @@ def run_sequence(case3, mode, seq, doomed=None, ignore_failures=False, limit=900
     return r, order, steps, history, fails
 
 
-def oracle(case3, mode, earlier, before, a, H, limit=900):
+# hand-written histories ("doomed" = the first target of the first episode, expected to fail; then reset() and the targets)
+HISTORY_CORPUS = [
+    # fix 9ee0a43: once `a/o` was known insoluble (failed target a/f), installed a/c-2 — whose DEPEND a/o the resolver never resolves for a
+    # built package — was pruned from every later choice point: a/b (IDEPEND a/c) failed on the resolver with history, not on a fresh one
+    {"src": {"a/f-2": {"depend": "a/o"}}, "vdb": {"a/b-1": {"idepend": "a/c"}, "a/c-2": {"depend": "a/o"}}, "targets": ["a/b"], "mode": "upgrade", "doomed": "a/f"},
+    {"src": {"a/f-2": {"bdepend": "|| ( a/o a/n )"}, "a/d-3": {"rdepend": "a/n"}, "a/g-1": {}},
+     "vdb": {"a/d-2": {"pdepend": "a/e"}, "a/e-1": {"bdepend": "|| ( a/n a/o )", "rdepend": "a/g"}}, "targets": ["a/d"], "mode": "min", "doomed": "a/f"},
+]
+
+
+class _Bail(Exception):
+    pass
+
+
+def straight_witness(U, mode, vcmp, planned, present, H):
+    """An INDEPENDENT witness that `H` is resolvable on top of a context (`present` = packages in place: installed ones still there +
+    planned ones; `planned` = the planned ones): the dependency-ordered plan obtained by taking, for every dependency that the plan
+    does not satisfy yet, the FIRST candidate of the policy order (upgrade: highest version, installed instance first among equals;
+    min-install: installed first) — depend, bdepend, rdepend, idepend before the package, pdepend after it, as the resolver does —
+    provided that never anything goes wrong on the way: no blocker on a package it brings in and none of a package in place hitting one, every clause a single atom or already satisfied, no
+    candidate in (or leading back to) a key+slot that is being worked on, no slot already planned with another package.  A search that
+    takes first candidates first walks exactly this path and meets no failure on it, so it has to end with `H` in the plan.  Whether the
+    plan really is dependency closed / slot consistent is decided afterwards by C15's verified checker.  Returns the list of operations
+    [("add", p) | ("replace", old, p)], or None (no statement)."""
+    plan = list(planned)
+    occupied = {(q.key, q.slot): q for q in present}
+    in_plan = {tuple(pid(q)) for q in planned}
+    ops, stack = [], []
+
+    def first_candidate(a):
+        c = [q for q in U if a.match(q)]
+        if not c:
+            raise _Bail()
+        best = c[0]
+        for q in c[1:]:
+            if mode == "min" and q.repo.livefs != best.repo.livefs:
+                if q.repo.livefs:
+                    best = q
+                continue
+            d = vcmp(q, best)
+            if d > 0 or (d == 0 and q.repo.livefs and not best.repo.livefs):
+                best = q
+        return best
+
+    def need(cl):
+        if any(a.blocks for a in cl):
+            raise _Bail()
+        if any(a.match(q) for a in cl for q in plan):
+            return
+        if len(cl) != 1:
+            raise _Bail()
+        visit(first_candidate(cl[0]))
+
+    def visit(p):
+        node = (p.key, p.slot)
+        if node in stack or len(stack) > 40:
+            raise _Bail()
+        occ = occupied.get(node)
+        if occ is not None and pid(occ) != pid(p) and (tuple(pid(occ)) in in_plan or p.repo.livefs):
+            raise _Bail()
+        stack.append(node)
+        for cls in (("rdepend", "idepend") if p.repo.livefs else ("depend", "bdepend", "rdepend", "idepend")):
+            for cl in getattr(p, cls).cnf_solutions():
+                need(list(cl))
+        occ = occupied.get(node)
+        if p.repo.livefs:
+            if occ is None or pid(occ) != pid(p):
+                raise _Bail()                   # an installed package that is not in place (any more)
+        elif occ is None:
+            ops.append(("add", p))
+        elif pid(occ) == pid(p) or tuple(pid(occ)) in in_plan or not occ.repo.livefs:
+            raise _Bail()
+        else:
+            ops.append(("replace", occ, p))     # an installed package nothing planned relies on gives way
+        occupied[node] = p
+        plan.append(p)
+        in_plan.add(tuple(pid(p)))
+        for cl in p.pdepend.cnf_solutions():
+            need(list(cl))
+        stack.pop()
+
+    try:
+        visit(H)
+    except (_Bail, RecursionError):
+        return None
+    # blockers carried by packages that are already in place (installed or planned, any class — the resolver honours the run-time
+    # blockers of installed packages it has loaded) must not touch anything the witness brings in
+    added = [op[-1] for op in ops]
+    for q in present:
+        for cls in c15.CLASSES:
+            for cl in getattr(q, cls).cnf_solutions():
+                for a in cl:
+                    if a.blocks and any(a.match(x) for x in added):
+                        return None
+    return ops
+
+
+def oracle(case3, mode, earlier, before, a, H, limit=900, vcmp=None):
     """is `H` resolvable on top of what the earlier targets of the episode were given?
 
     A FRESH resolver is given the packages the earlier targets got (`earlier`, in target order), pinned one by one; that is the context —
@@ -272,14 +417,39 @@ def oracle(case3, mode, earlier, before, a, H, limit=900):
         extra = [q for q in before["F"] if c15.pid(q) not in have]
         if r.state.match_atom(a):
             return None            # the choices made for the earlier targets satisfy this target already: nothing is chosen for it
+        ctx_plan = c15.plan_of(r, U, index)[0]
         pin = "=" + H.cpvstr
-        if r.add_atom(fx["atom"](pin)):
+        pinned_ok = False
+        try:
+            # the pin must not be satisfied by a twin of the same version from another repository, and H must stay in place (not e.g.
+            # an installed package replaced by its source twin)
+            pinned_ok = (not r.add_atom(fx["atom"](pin))
+                         and tuple(pid(H)) in {tuple(pid(op.pkg)) for op in r.state.iter_ops(True)}
+                         and any(c15.pid(q) == c15.pid(H) for q in snapshot(r, U, index)["F"]))
+        except Exception:  # noqa: BLE001 — RecursionError etc.
+            pinned_ok = False
+        if pinned_ok:
+            req, objp = check_c15(None, r, order, pins + [pin])
+            return {"req": req, "objp": objp, "pins": pins + [pin], "same": same, "extra": extra, "kind": "pinned"}
+        # the resolver under test could not pin H: is there an independent, dependency-ordered first-candidate plan for it?
+        ops = straight_witness(U, mode, vcmp, ctxt["touched"], ctxt["F"], H) if vcmp else None
+        if not ops:
             return None
-        if tuple(pid(H)) not in {tuple(pid(op.pkg)) for op in r.state.iter_ops(True)}:
-            return None            # the pin was satisfied by a twin of the same version from another repository
-        if not any(c15.pid(q) == c15.pid(H) for q in snapshot(r, U, index)["F"]):
-            return None            # H was put in place and displaced again (e.g. an installed package replaced by its source twin)
-        return r, order, pins + [pin], same, extra
+        plan, F, merged = list(ctx_plan), list(ctxt["F"]), list(ctxt["merged"])
+        for op in ops:
+            if op[0] == "add":
+                plan.append(["add", index[c15.pid(op[1])]])
+            else:
+                plan.append(["replace", index[c15.pid(op[1])], index[c15.pid(op[2])]])
+                F = [q for q in F if c15.pid(q) != c15.pid(op[1])]
+            F.append(op[-1])
+            merged.append(op[-1])
+        ser = c15.Ser()
+        pkgs = [ser.pkg(q, i) for i, q in enumerate(U)]
+        tg = [fx["atom"](t) for t in pins + [pin]]
+        req = {"cmd": "c15.check", "pkgs": pkgs, "targets": [ser.atom(t) for t in tg], "plan": plan, "atoms": []}
+        return {"req": req, "objp": (U, F, merged, tg), "pins": pins + [pin], "same": same, "extra": extra, "kind": "straight",
+                "steps": [op[0] + " " + repr(op[-1]) for op in ops]}
     except Exception:  # noqa: BLE001 — RecursionError etc.: no witness
         return None
     finally:
@@ -296,35 +466,57 @@ def run(ctx):
         return ver_cmp(a.version, a.revision, b.version, b.revision)
 
     cases = []
-    for c in c15.CORPUS:
+    for c in c15.CORPUS + HISTORY_CORPUS:
         cases.append(dict(c, stream="corpus"))
     for i in range(ctx.n(130, 2000)):
         k = i % 8
         cases.append(gen_cycle_case(rng) if k in (3, 7) else c15.gen_reject_case(rng) if k in (1, 5) else c15.gen_family_case(rng) if k == 4
                      else c15.gen_case(rng, ("dag", "dag-twins", "wild")[i % 3]))
+    for i in range(ctx.n(40, 600)):
+        cases.append(c15.gen_bootstrap_case(rng))
 
     stream_jobs = []     # (case3, atom string, mode, real stream, repos json)
     seq_jobs = []        # (case3, mode, targets so far, step index, step record)
     det_jobs = []        # (case3, mode, targets, in-process result)
+    inst_bad, inst_seen, perm_seen = [], set(), set()
     for case in cases:
-        s1, s2, vdb = split_src(rng, case)
+        s1, s2, vdb = split_src(rng, decorate_use(rng, case))
         case3 = {"s1": s1, "s2": s2, "vdb": vdb}
         # ---------------- candidate streams of the real strategies
         names = sorted({cpv.split("-")[0] for d in (s1, s2, vdb) for cpv in d})
         atoms = list(dict.fromkeys(case["targets"] + names + [c15.gen_atom(rng, [n.split("/")[1] for n in names], blockers=False) for _ in range(2)]))
+        # a HISTORY of lookups on the one strategy object of a resolver (its per-repository caches live as long as it does)
+        plain_atoms, hist_mode = atoms, rng.choice(["upgrade", "min"])
+        hist_atoms = lookup_history(rng, atoms, names) if names else atoms
         for mode in ("upgrade", "min"):
+            atoms = hist_atoms if mode == hist_mode else plain_atoms
             try:
                 r, order = build(case3, mode)
             except Exception as e:  # noqa: BLE001
                 ctx.violation(case3, f"building the {mode} resolver raised {type(e).__name__}: {e}")
                 continue
-            for t in atoms:
+            for n_asked, t in enumerate(atoms):
                 a = atom(t)
+                asked = atoms[:n_asked]
                 try:
                     real = list(r.all_dbs.itermatch(a))
+                    inst = list(r.livefs_dbs.itermatch(a))
                 except Exception as e:  # noqa: BLE001
-                    ctx.violation({"case": case3, "atom": t, "mode": mode}, f"strategy.itermatch raised {type(e).__name__}: {e}")
+                    ctx.violation({"case": case3, "atom": t, "mode": mode, "asked_before": asked}, f"strategy.itermatch raised {type(e).__name__}: {e}")
                     continue
+                # the installed-only view the resolver consults for blockers / forced vdb lookups shares those caches
+                ctx.evaluations += 1
+                want_inst = sorted(tuple(pid(p)) for repo in order if repo.livefs for p in repo.itermatch(a))
+                if sorted(tuple(pid(p)) for p in inst) != want_inst and (id(case3), mode) not in inst_seen:
+                    inst_seen.add((id(case3), mode))       # one report per resolver, after the resolution-level verdicts
+                    inst_bad.append(({"case": case3, "atom": t, "mode": mode, "asked_before": asked},
+                                     f"{mode} resolver, installed packages matching {t} after the lookups {asked}: livefs_dbs offers "
+                                     f"{[repr(p) for p in inst]}, the installed repository holds {want_inst} — an installed package the "
+                                     f"resolver cannot see is not kept / not preferred"))
+                if a.use or a.repo_id:
+                    ctx.count("stream_lookup_with_use_or_repo_dep")
+                elif any(x != t and atom(x).key == a.key and (atom(x).use or atom(x).repo_id) for x in asked):
+                    ctx.count("stream_lookup_after_use_or_repo_dep_lookup_of_same_package")
                 ids, repos = {}, []
                 for repo in order:
                     pk = []
@@ -332,7 +524,7 @@ def run(ctx):
                         ids[tuple(pid(p))] = len(ids)
                         pk.append({"id": ids[tuple(pid(p))], "ver": c15.lex_ver(p.version), "rev": str(p.revision or "")})
                     repos.append({"livefs": bool(repo.livefs), "pkgs": pk})
-                stream_jobs.append((case3, t, mode, real, ids, repos))
+                stream_jobs.append((case3, t, mode, real, ids, repos, asked))
         # ---------------- resolutions: a sequence of targets on ONE long-lived resolver (one add_atom each); failures are either the
         # end of the sequence or — the way pmerge --ignore-failures drives a resolver — followed by reset() and a new episode without
         # the target that failed; a third of the sequences starts with a target nothing provides
@@ -345,6 +537,14 @@ def run(ctx):
         doomed = None
         if rng.random() < 0.35:
             doomed = rng.choice(["a/" + rng.choice(c15.GHOSTS), ">" + rng.choice(names) + "-" + c15.VERSIONS[-1]]) if names else "a/" + c15.GHOSTS[0]
+        elif names and rng.random() < 0.3:
+            # ... or with another spelling of a later target's package — a USE dependency, a ::repo pin — that may or may not be
+            # resolvable: what it leaves behind in the resolver (lookup caches survive reset()) must not matter to the later target
+            n = atom(rng.choice(seq)).key
+            f, g = rng.sample(USE_FLAGS, 2)
+            doomed = rng.choice([f"{n}[{f}]", f"{n}[-{f}]", f"{n}[{f},{g}]", f"{n}[{f},-{g}]", f"{n}::src2", f"{n}::vdb", f"{n}:1[{f}]"])
+        if "doomed" in case:
+            doomed = case["doomed"]
         ignore_failures = doomed is not None or rng.random() < 0.5
         for mode in ("upgrade", "min"):
             r, order, steps, history, fails = run_sequence(case3, mode, seq, doomed, ignore_failures)
@@ -380,21 +580,22 @@ def run(ctx):
 
     # ---- streams: model vs code (edge A) and the policy on the real stream (edge C)
     replies = ctx.model([{"cmd": "c16.stream", "repos": j[5]} for j in stream_jobs])
-    for (case3, t, mode, real, ids, repos), rep in zip(stream_jobs, replies):
-        case = {"case": case3, "atom": t, "mode": mode}
+    for (case3, t, mode, real, ids, repos, asked), rep in zip(stream_jobs, replies):
+        case = {"case": case3, "atom": t, "mode": mode, "asked_before": asked}
         if rep == "bad-op":
             ctx.mismatch(case, "driver rejected the request")
             continue
-        got = [ids[tuple(pid(p))] for p in real]
+        got = [ids.get(tuple(pid(p)), -1) for p in real]
         want = rep["upgrade"] if mode == "upgrade" else rep["reuse"]
         tie = any(vcmp(real[i], real[i + 1]) == 0 for i in range(len(real) - 1))
-        ctx.case(case, len(real) >= 3 or tie, key=repr((case3, t, mode)))
+        ctx.case(case, len(real) >= 3 or tie, key=repr((case3, t, mode, asked)))
         ctx.count("stream_len_%d" % min(len(real), 6))
         if tie:
             ctx.count("stream_with_tie")
         bad = None
         if sorted(got) != sorted(range(len(ids))):
-            bad = "the stream is not a permutation of the matching candidates"
+            bad = (f"the stream is not a permutation of the candidates the repositories hold for {t} "
+                   f"({sorted(ids)}); lookups made before on the same strategy object: {asked}")
         for i in range(len(real)):
             for j in range(i + 1, len(real)):
                 a, b = real[i], real[j]
@@ -406,7 +607,11 @@ def run(ctx):
                         bad = f"{a!r} is offered before the higher {b!r}"
                     elif c == 0 and b.repo.livefs and not a.repo.livefs:
                         bad = f"{a!r} is offered before the installed instance {b!r} of the same version"
-        if bad:
+        if bad and "not a permutation" in bad:
+            if (id(case3), mode) not in perm_seen:
+                perm_seen.add((id(case3), mode))
+                inst_bad.append((case, f"{mode} strategy stream {[repr(p) for p in real]}: {bad}"))
+        elif bad:
             ctx.violation(case, f"{mode} strategy stream {[repr(p) for p in real]}: {bad}")
         elif got != want:
             ctx.mismatch(case, f"real stream {[repr(p) for p in real]} = ids {got}, Lean model {want}")
@@ -420,16 +625,16 @@ def run(ctx):
         if not st["stream"]:
             continue
         H = st["stream"][0]
-        w = oracle(case3, mode, earlier, st["before"], atom(targets[-1]), H)
+        w = oracle(case3, mode, earlier, st["before"], atom(targets[-1]), H, vcmp=vcmp)
         if w is None:
             ctx.count("target_already_in_plan" if st["presolved"] else "first_candidate_not_resolvable")
             continue
-        rp, orderp, pins, same, extra = w
-        reqp, objp = check_c15(ctx, rp, orderp, pins)
-        pinned.append((case3, mode, targets, k, st, H, reqp, objp, same, extra, hist))
+        same, extra = w["same"], w["extra"]
+        pinned.append((case3, mode, targets, k, st, H, w["req"], w["objp"], same, (extra, w), hist))
     verdicts = ctx.model([p[6] for p in pinned])
     for (case3, mode, targets, k, st, H, reqp, objp, same, extra, hist), vp in zip(pinned, verdicts):
         case = dict({"case": case3, "targets": targets, "mode": mode}, **hist)
+        extra, w = extra
         Up, Fp, mergedp, _ = objp
         F, merged = st["after"]["F"], st["after"]["merged"]
         if vp == "bad-op" or not vp["ok"]:
@@ -452,6 +657,11 @@ def run(ctx):
         where = f"target #{k + 1} ({targets[-1]}) of the sequence {targets} on one resolver" + (" FAILED" if failed else "") + \
             (f" (history of that resolver: {hist['history']})" if hist else "")
         on_top = "resolvable on top of what the earlier targets were given (pinned plan accepted by planOk)"
+        if w["kind"] == "straight":
+            ctx.count("first_candidate_resolvable_by_independent_witness_only")
+            on_top = (f"resolvable on top of what the earlier targets were given — the resolver itself cannot even resolve the pinned target "
+                      f"{w['pins'][-1]}, but the dependency-ordered plan that takes the first candidate for every open dependency "
+                      f"({w['steps']}) meets no conflict, blocker or cycle and is accepted by planOk")
         if st["presolved"] or not same:
             on_top += (f"; the live plan held {[repr(q) for q in extra]} before this target, which a fresh resolution of the earlier targets' "
                        f"choices does not plan")
@@ -473,6 +683,9 @@ def run(ctx):
                                         f"{[repr(q) for q in m]} / keeps {[repr(q) for q in present]}; planned packages {plan_txt}")
             elif not any(vcmp(q, H) == 0 for q in present):
                 ctx.violation(case, f"min-install, {where}: no installed match; highest {H!r} is {on_top} but the target got {[repr(q) for q in present]}")
+
+    for case, detail in inst_bad:
+        ctx.violation(case, detail)
 
     # ---- determinism: repeat in-process, and in child interpreters with other hash seeds.  The targets of the last episode resolved on a
     # fresh resolver must give what they gave on the resolver that had failed and been reset() before
